@@ -71,6 +71,7 @@ AtomHolds(a, s, P) ==
       [] a.k = "ftime"  -> InRange(s.ft, a.lo, a.hi)
       [] a.k = "ltime"  -> InRange(s.lt, a.lo, a.hi)
       [] a.k = "fteq"   -> s.ft = a.n                  \* a single time instead of a range (ftime:"2022-05-06 020000")
+      [] a.k = "capc"   -> \E i \in DOMAIN s.ev : s.ev[i].d = "c"     \* cdata:"(?P<v>[A-Z]+)": captures the first client token
       [] a.k = "protoself" -> TRUE                     \* the protocol of the stream itself (protocol:@protocol@)
       \* the duration of the stream (ltime:@ftime@+90m:  /  ltime::@ftime@+90m, thresholds between whole hours):
       \* "ge" n: lasts at least n hours, "le" n: lasts less than n hours
@@ -179,7 +180,9 @@ VisibleStreams(files) ==
     {s \in UNION {Range(files[i]) : i \in DOMAIN files} :
         \E i \in DOMAIN files : s \in Range(files[i]) /\
             \A j \in DOMAIN files : j > i => \A t \in Range(files[j]) : t.id # s.id}
-KeyVal(k, s) == CASE k = "id" -> s.id [] k = "ftime" -> s.ft [] k = "ltime" -> s.lt [] k = "cbytes" -> s.cbytes
+\* the value a data filter captured (group:"@v@" with cdata:"(?P<v>[A-Z]+)"): the first token the client sent
+FirstClientTok(s) == LET cs == SelectSeq(s.ev, LAMBDA e : e.d = "c") IN IF cs = <<>> THEN "" ELSE cs[1].t
+KeyVal(k, s) == CASE k = "v" -> FirstClientTok(s) [] k = "id" -> s.id [] k = "ftime" -> s.ft [] k = "ltime" -> s.lt [] k = "cbytes" -> s.cbytes
                   [] k = "sbytes" -> s.sbytes [] k = "chost" -> s.chost [] k = "shost" -> s.shost
                   [] k = "cport" -> s.cport [] k = "sport" -> s.sport
 \* -1 / 0 / 1 comparison by the key list (sorting = <<[key, desc], ...>>)
